@@ -16,10 +16,17 @@ def fresh_dd():
     return B
 
 
-def install(case, B=None, cls=None):
+def install(case, B=None, cls=None, _direct=False):
     """Build a real manager whose tables are exactly those of `case`
     (the same way `BDD._load_manager` installs them)."""
+    global LAST_PUBLIC
     B = B or fresh_dd()
+    if PUBLIC_MODE and not _direct:
+        bdd = build_public(case, B, cls)
+        if bdd is not None:
+            LAST_PUBLIC = True
+            return bdd
+        LAST_PUBLIC = False
     names = case['names']
     L = case['L']
     if cls is None:
@@ -222,3 +229,129 @@ def quant_tt(f, levels, forall, L):
 
 def depends_tt(f, i, L):
     return cof_tt(f, i, 1, L) != cof_tt(f, i, 0, L)
+
+
+# ---------------------------------------------------------------------------
+# re-creating a state through public calls only (DESIGN.md 7.3, step 3)
+
+PUBLIC_MODE = False          # when set, `install` first tries `build_public`
+LAST_PUBLIC = None           # whether the last `install` succeeded that way
+
+
+def build_public(case, B=None, cls=None):
+    """Reach the manager state of `case` with public calls only: declaration
+    of the variables, `find_or_add` (with filler nodes to obtain the exact
+    node numbers), `incref` / `decref`, rooted `collect_garbage`, `ite` (for
+    computed-table entries).  Returns the manager, or None when the exact
+    state cannot be obtained this way (then the directly installed state is
+    used; it has passed the independent invariant check)."""
+    B = B or fresh_dd()
+    if cls is None:
+        from .mgr import nodel_class
+        cls = nodel_class(B)
+    names, L = case['names'], case['L']
+    items = [(nm, i) for i, nm in enumerate(names)]
+    if case.get('decl') == 'reversed':
+        items.reverse()
+    bdd = cls(dict(items))
+    target = {int(k): tuple(v) for k, v in case['succ'].items()}
+    ext = {int(k): v for k, v in case.get('ext', {}).items()} if 'ext' in case else None
+    tvals = set(target.values())
+    done = set()
+    order = []
+    pending = dict(target)
+    while pending:
+        progressed = False
+        for k, (lv, lo, hi) in sorted(pending.items()):
+            if all(abs(c) == 1 or abs(c) in done for c in (lo, hi)):
+                order.append(k)
+                done.add(k)
+                del pending[k]
+                progressed = True
+        if not progressed:
+            return None
+    fillers = []
+
+    def filler_only(e):
+        return abs(e) == 1 or abs(e) in fillers
+
+    def make_filler():
+        cands = [1, -1] + [s * f for f in fillers for s in (1, -1)]
+        for lv in range(L - 1, -1, -1):
+            for hi in cands:
+                if hi < 0 or bdd._succ[abs(hi)][0] <= lv:
+                    continue
+                for lo in cands:
+                    if lo == hi or bdd._succ[abs(lo)][0] <= lv:
+                        continue
+                    t = (lv, lo, hi)
+                    if t in tvals or t in bdd._pred:
+                        continue
+                    r = bdd.find_or_add(lv, lo, hi)
+                    bdd.incref(r)
+                    fillers.append(abs(r))
+                    return True
+        return False
+
+    try:
+        for k in order:
+            lv, lo, hi = target[k]
+            if k in bdd._succ:
+                if k not in fillers:
+                    return None
+                # fillers created after it may point to it: release those first
+                idx = fillers.index(k)
+                for f in reversed(fillers[idx:]):
+                    bdd.decref(f)
+                    bdd.collect_garbage([f])
+                    if f in bdd._succ:
+                        return None
+                del fillers[idx:]
+            guard = 0
+            while bdd._min_free < k:
+                guard += 1
+                if guard > 50 or not make_filler():
+                    return None
+            if bdd._min_free != k:
+                return None
+            r = bdd.find_or_add(lv, lo, hi)
+            if r != k:
+                return None
+            bdd.incref(k)
+        for f in reversed(fillers):
+            bdd.decref(f)
+            bdd.collect_garbage([f])
+            if f in bdd._succ:
+                return None
+        for k in order:
+            n = ext.get(k, 0) if ext is not None else 0
+            for _ in range(min(n, 10 ** 6)):
+                bdd.incref(k)
+            bdd.decref(k)
+        if ext is not None:
+            n1 = ext.get(1, 0)
+            if n1 < 1:
+                bdd.decref(1)
+            for _ in range(min(n1 - 1, 10 ** 6)):
+                bdd.incref(1)
+        bdd._ite_table = dict()
+        for g, u, v, r in case.get('cache', []):
+            before = set(bdd._succ)
+            if abs(g) == 1:
+                return None
+            r2 = bdd.ite(g, u, v)
+            if r2 != r or set(bdd._succ) != before:
+                return None
+            if set(bdd._ite_table) != {(g, u, v)} and len(case.get('cache', [])) == 1:
+                # sub-results were remembered too: still a state reached by public calls
+                pass
+    except Exception:
+        return None
+    ref_case = install(dict(case), B, cls, _direct=True)
+    if dict(bdd._succ) != dict(ref_case._succ) or bdd._min_free != ref_case._min_free:
+        return None
+    if ext is not None and dict(bdd._ref) != dict(ref_case._ref):
+        return None
+    if ext is None:
+        bdd._ref = dict(ref_case._ref)
+    return bdd
